@@ -29,8 +29,10 @@ given, so a parsed Database is never shared).
       c11.elem.diffusion_profile / c11.elem.diffusion_time   single-phase and homogenization runs with permuted
                                  element lists (profiles, boundary conditions addressed by element name): same number of
                                  recorded steps, recorded times equal, recorded profiles equal after permuting rows, at
-                                 EVERY recorded step (TOL_DIFF = 1e-7, scale = largest composition / last time; measured
-                                 worst 8e-11 time, 4e-11 profiles).  Flux conditions are inflow only and sized so that
+                                 EVERY recorded step (TOL_DIFF = 1e-6, scale = largest composition / last time; measured
+                                 worst: single phase 2e-10 (time) / 4e-11 (profiles); homogenization 1.0e-8 (time) / 3.5e-10
+                                 (profiles) - its step size is maxCompositionChange / max|dx/dt| with dx/dt a difference of
+                                 nearly equal face fluxes, which amplifies the 1e-12 noise of the fluxes).  Flux conditions are inflow only and sized so that
                                  compositions stay in the window: in the dilute corner (x clipped to 1e-8) the solver noise in
                                  D reaches 1e-8 (measured).  Both members perform the same public call sequence
                                  (setup, getFluxes, solve); the run length is not a whole number of initial steps.
@@ -124,14 +126,14 @@ MANIFEST = {
             'with a memoryless backend: bit-level agreement measured); the same permutation oracle is applied directly to every step-size rule '
             '(synthetic inputs and the in-run state) and to the nucleation-site competition.',
     'note': 'trusted: numpy; determinism of kawin+pycalphad for identical inputs on fresh objects in one process (measured bit-identical); '
-            'tolerances: 1e-6 point queries (solver-convergence noise, worst measured 3.3e-9), 1e-7 diffusion runs (worst 2e-10), trajectories 1e-6 '
+            'tolerances: 1e-6 point queries (solver-convergence noise, worst measured 3.3e-9), 1e-6 diffusion runs (worst 1.0e-8), trajectories 1e-6 '
             '(two phases, measured 0) / 1e-4 (three phases, measured 2.1e-6), 1e-12 min/sum reductions; points inside a miscibility gap are counted, '
             'their equilibrium-based queries not judged',
     'technique': 'differential / metamorphic monitor over paired executions (permuted vs. unpermuted configuration)',
 }
 
 TOL_Q = 1e-6       # point queries: pycalphad solver-convergence noise has a heavy tail (see module docstring)
-TOL_DIFF = 1e-7    # diffusion runs
+TOL_DIFF = 1e-6    # diffusion runs
 TOL_TRAJ = {2: 1e-6, 3: 1e-4}    # by number of precipitate phases (see module docstring)
 TOL_RULE = 1e-12
 R_GAS = 8.314
